@@ -324,7 +324,7 @@ func (p *Parser) parseComparisonExpression() (ast.Expression, error) {
 			}
 			p.advance() // Consume )
 
-			if quantifier == "ANY" {
+			if strings.EqualFold(quantifier, "ANY") {
 				return &ast.AnyExpression{
 					Expr:     left,
 					Operator: operator,
